@@ -39,6 +39,10 @@ def lag_pairs(rng, tier):
     base = scenarios.make_core(rng, {'a1': t}, [(1, 1, 'a1')],
                                [scenarios.flow_for(t)], gap_model='flow',
                                bypass_fraction=0.05, coolant='sodium')
+    # (with a pin model: whatever the pin temperature calculation does to
+    # the shared coolant state must not reach the coolant energy equation)
+    from harness import trackcheck
+    trackcheck.with_pins(base)
     for name, dz in (('lag-dz', 0.002), ('lag-dz2', 0.001)):
         c = copy.deepcopy(base)
         c['setup']['axial_mesh_size'] = dz
